@@ -173,3 +173,21 @@ def key_envconc(pid, c):
     if c.go.startswith("differs") or c.go.startswith("violation"):
         return "envconc.interference"
     return None
+
+
+def key_reread(pid, c):
+    """Two representation-level findings of the second clause of C06 (text accepted by READ, printed, read again):
+    a BOM that is not at the very start of the text is a one-character symbol which prints as a leading BOM (skipped
+    by the scanner), and a string literal whose first character is U+029E *is* a keyword in this implementation."""
+    k = _panic_key(pid, c)
+    if k:
+        return k
+    try:
+        raw = bytes.fromhex(c.payload.split("\t")[0].strip())
+    except ValueError:
+        return None
+    if b"\xef\xbb\xbf" in raw[1:]:
+        return "reread.bom-symbol"
+    if b'"\xca\x9e' in raw or b"\xc2\xac\xca\x9e" in raw:
+        return "reread.marker-leading-string"
+    return None
